@@ -12,6 +12,7 @@ import (
 	"os"
 	"sort"
 	"strings"
+	"time"
 )
 
 type propFn func(c *ctx)
@@ -48,17 +49,22 @@ func runReplay(c *ctx) {
 }
 
 type ctx struct {
-	prop    string
-	tier    string
-	seed    uint64
-	rng     *rng
-	w       *bufio.Writer
-	k       int
-	replay  string
-	budget  int // scale factor: 1 quick, larger thorough
-	stats   map[string]int
-	corpus  string
+	prop     string
+	tier     string
+	seed     uint64
+	rng      *rng
+	w        *bufio.Writer
+	k        int
+	replay   string
+	budget   int // scale factor: 1 quick, larger thorough
+	stats    map[string]int
+	corpus   string
+	deadline time.Time // zero: none; generators that can run long stop producing new cases after it
+	noEnum   bool      // skip the seed-independent systematic enumerations (extra seeds of the thorough tier)
 }
+
+// expired: the optional wall-clock budget of this run is used up (only ever stops the generation of further cases).
+func (c *ctx) expired() bool { return !c.deadline.IsZero() && time.Now().After(c.deadline) }
 
 func (c *ctx) thorough() bool { return c.tier == "thorough" }
 
@@ -71,6 +77,8 @@ func main() {
 	out := flag.String("out", "", "output file (default stdout)")
 	replay := flag.String("replay", "", "replay file: re-run the cases in it")
 	corpus := flag.String("corpus", "", "corpus directory")
+	maxsecs := flag.Int("maxsecs", 0, "stop generating new cases after this many seconds (0 = no limit)")
+	noenum := flag.Bool("noenum", false, "skip seed-independent systematic enumerations")
 	flag.Parse()
 	if flag.NArg() < 1 {
 		fmt.Fprintln(os.Stderr, "usage: harness [flags] <property>")
@@ -102,6 +110,10 @@ func main() {
 	if c.thorough() {
 		c.budget = 20
 	}
+	if *maxsecs > 0 {
+		c.deadline = time.Now().Add(time.Duration(*maxsecs) * time.Second)
+	}
+	c.noEnum = *noenum
 	silenceLogs()
 	if c.replay != "" {
 		runReplay(c)
